@@ -42,8 +42,10 @@ Definition set_dev_mode (r : registry) (b : bool) :=
   reg_set_flags r (r_strict r) b (r_prevent_indent r) (if b then r_sources r else []).
 Definition set_prevent_indent (r : registry) (b : bool) := reg_set_flags r (r_strict r) (r_dev r) b (r_sources r).
 
+(* register_template drops a dev-mode source tracked under the same name (F6 fix);
+   register_template_file re-adds its source afterwards *)
 Definition register_template (r : registry) (name : str) (t : template) : registry :=
-  reg_with r (map_insert (r_templates r) name t) (r_sources r).
+  reg_with r (map_insert (r_templates r) name t) (map_remove (r_sources r) name).
 
 Definition reg_opts (r : registry) (name : option str) : copts :=
   {| o_prevent_indent := r_prevent_indent r; o_is_partial := false; o_name := name |}.
